@@ -48,7 +48,7 @@ manifest = {
     "engines": [
         {"name": "simkit", "path": "/verif/simkit",
          "serves_properties": [c["property_id"] for c in checks],
-         "kind_free_text": "hand-written deterministic simulator: one PRNG + choice tape per run, cooperative generator scheduler (engine A), baton-passing threads with settrace pre-emption (engine B), simulated byte channel with fault kinds, independent protobuf wire codec + reference Jelly decoder/encoder as oracles, ddmin minimiser, replay files"},
+         "kind_free_text": "hand-written deterministic simulator: one PRNG + choice tape per run, cooperative generator scheduler (engine A), baton-passing threads with settrace pre-emption (engine B), simulated byte channel with fault kinds, independent protobuf wire codec + reference Jelly decoder/encoder as oracles, ddmin minimiser, replay files; a fixed share of the runs of every check is executed, under the same tape, in child interpreters: python -O, a mypyc build of the working tree (simkit/mypyc_build.py, rebuilt from /repo on demand), protobuf's pure-Python backend"},
     ],
     "checks": checks,
     "not_applicable": na,
